@@ -139,6 +139,10 @@ func main() {
 	ctx := &Ctx{R: gen.New(*seed), N: *n, Tier: *tier, Dir: *out, w: bufio.NewWriterSize(fh, 1<<20),
 		Stats: map[string]int{}, Replay: *replay}
 	f(ctx)
+	if theSys != nil && theSys.dir != "" { // the running teamserver's scratch directory (the process ends here)
+		os.Chdir("/")
+		os.RemoveAll(theSys.dir)
+	}
 	os.Remove(filepath.Join(*out, "pending.txt"))
 	ctx.w.Flush()
 	fh.Close()
